@@ -24,10 +24,10 @@ COMPONENTS_STUB = ["UDP socket (SimSocket)", "name resolution", "module random o
 ASSUMPTIONS = ["the socket model (recvmsg/sendmsg/pktinfo) is faithful to Linux",
                "call_soon FIFO order of asyncio is kept; timers and arrivals at the same instant are processed arrivals first",
                "time comparisons use a tolerance of 1e-9 s"]
-EXPECTED_PROBES = ["mid_collision_with_peer_message", "giveup", "ack_tie", "ack_pre_eps", "ack_post_eps", "rst", "wrong_mid", "wrong_src",
+EXPECTED_PROBES = ["piggyback_with_unknown_token", "request_cancelled_while_exchange_open", "mid_collision_with_peer_message", "giveup", "ack_tie", "ack_pre_eps", "ack_post_eps", "rst", "wrong_mid", "wrong_src",
                    "server_con", "mr0", "late_ack"]
 
-KINDS = ["ack", "rst", "piggy", "wrongmid_ack", "wrongmid_rst", "wrongsrc_ack", "wrongsrc_rst", "wrongport_ack"]
+KINDS = ["ack", "rst", "piggy", "piggy_wrongtoken", "wrongmid_ack", "wrongmid_rst", "wrongsrc_ack", "wrongsrc_rst", "wrongport_ack"]
 POSITIONS = ["now", "mid", "pre", "tie", "post", "late"]
 
 
@@ -51,7 +51,7 @@ def gen_script(r, mr, allow_piggy):
     n = mr + 1
     script = [None] * n
     plan = r.random()
-    kinds_final = ["ack", "rst"] + (["piggy"] if allow_piggy else [])
+    kinds_final = ["ack", "rst"] + (["piggy", "piggy_wrongtoken"] if allow_piggy else [])
     noise = ["wrongmid_ack", "wrongmid_rst", "wrongsrc_ack", "wrongsrc_rst", "wrongport_ack"]
     if plan < 0.25:
         pass  # total silence -> give up
@@ -85,6 +85,8 @@ def gen(r, tier):
             # the two directions number their messages independently: the peer may have used, for a message of its
             # own, the very ID our next message will get
             "collide": r.choice([None, None, "non", "con"]) if kind == "request" else None,
+            # the application may lose interest (cancel) while the exchange is still open
+            "cancel_at": (round(r.uniform(0.01, 6.0), 3) if (kind == "request" and r.chance(0.15)) else None),
         })
     net = faults.swarm(r, kinds=("drop", "dup", "delay"))
     return {"msgs": msgs, "net": net, "stall": (r.chance(0.15))}
@@ -214,6 +216,12 @@ class AckPeer(ScriptedEndpoint):
             code = rc.CONTENT
             token = msg["token"]
             payload = b"piggy"
+        elif kind == "piggy_wrongtoken":
+            # an ACK for this message ID from this endpoint, carrying a response nobody waits for (any more)
+            code = rc.CONTENT
+            token = b"\xaa\xbb\xcc\xdd\x01"
+            payload = b"stray"
+            self.sim.probe("piggyback_with_unknown_token")
         else:
             self.sim.probe({"pre": "ack_pre_eps", "tie": "ack_tie", "post": "ack_post_eps",
                             "late": "late_ack"}.get(pos, "ack_other"))
@@ -328,7 +336,13 @@ def execute(sim, scn):
             def start(m=m, ip=ip):
                 msg = Message(code=GET, uri="coap://[%s]/x%d" % (ip, m["id"]),
                               transport_tuning=common.make_tuning(m["tuning"]))
-                tracker.start(m["id"], client, msg, handle_blockwise=m["blockwise"])
+                rec = tracker.start(m["id"], client, msg, handle_blockwise=m["blockwise"])
+                if m.get("cancel_at") is not None:
+                    def cancel(rec=rec):
+                        if not rec["req"].response.done():
+                            sim.probe("request_cancelled_while_exchange_open")
+                            rec["req"].response.cancel()
+                    loop.at(loop.now + m["cancel_at"], cancel)
             loop.at(m["t"], start)
         else:
             sim.probe("server_con")
@@ -392,7 +406,8 @@ def execute(sim, scn):
                 continue
             if am["type"] in (rc.ACK, rc.RST) and am["mid"] == mid:
                 t_stop = t
-                stop_kind = "rst" if am["type"] == rc.RST else ("piggy" if am["code"] else "ack")
+                stop_kind = "rst" if am["type"] == rc.RST else (
+                    ("piggy" if am["token"] == ents[0]["msg"]["token"] else "piggy_wrongtoken") if am["code"] else "ack")
                 break
         # timers[i] = instant at which the timer armed by copy i is due (same float arithmetic as
         # call_later: transmission instant + timeout); copies not (yet) sent are extrapolated
@@ -437,6 +452,8 @@ def execute(sim, scn):
         ident = {"msg": m["id"]}
         if rec["done"] > 1:
             sim.violation("C03/request-completed-twice", ident)
+        if rec.get("outcome") == "cancelled":
+            continue  # the application cancelled it; the retransmission rules above still applied
         if not sts:
             # never transmitted
             if rec["done"] == 0:
